@@ -11,14 +11,21 @@ import RvModel.Hand.Mvg
   answers:  floats / `L<d> …` / matrices in the same format; `ok`; `E:<Variant>`; `PANIC`; option `N` | `S …`.
 
     mvg.new - <mu> <cov>                          ↦ ok | E:…
-    mvg.set_mu - <mu> <cov> <mu2>                 ↦ ok | E:…                      (constructor errors: `E0:…`)
+    mvg.set_mu - <mu> <cov> <mu2>                 ↦ (ok | E:…) <mu()> <cov()>   = the object AFTER the call   (constructor errors: `E0:…`)
     mvg.mean_variance - <mu> <cov>                ↦ <mean> <variance> | E:…
     mvg.ln_f - <mu> <cov> <x>                     ↦ x… | E:… | PANIC
     mvg.entropy - <mu> <cov>                      ↦ x… | E:…
     mvg.ln_f_stat - <mu> <cov> <data>             ↦ x… | E:… | PANIC
     mvg.draw_z - <mu> <cov> <z>                   ↦ <x>           (MODEL ONLY; the harness has `mvg.draw_with_z … <seed>` ↦ <z> <x>)
     mvg.set_cov_then_ln_f - <mu> <cov1> <cov2> <x> ↦ <ln_f before> <ln_f after> <entropy after> <ln_f fresh> <entropy fresh>
+                                                       <mu()> <cov()> <object == fresh new(mu, cov2)>
                                                      | E:<Variant of set_cov> <ln_f after the failed set_cov> <entropy after>
+                                                       <mu()> <cov()> <object == the object before the call>
+    mvg.from_chol - <mu> <cov> <x>                ↦ N (Cholesky fails) | E:MuCovDimensionMismatch <cov() of new_cholesky_unchecked>
+                                                     | <cov() of new_cholesky(mu, chol)> <cov() of new_cholesky_unchecked(mu, chol)> <the two ==>
+                                                       <ln_f x> <entropy> <variance()> of the unchecked one
+                                                       <cov() of from_params(emit_params(new(mu, cov)))> <that == new(mu, cov)>
+    niw.draw_z - <niw> <Z: (df+1) × d variates>   ↦ <mu()> <cov()> of the draw   (MODEL ONLY; harness: `niw.draw_with_z <niw> <seed>` ↦ <Z> <mu()> <cov()>)
     mvgstat.observe_forget - <data> L<k> i…       ↦ <n> <sum_x> <sum_x_sq>
     iw.new - <scale> <df>                         ↦ ok | E:…
     iw.ln_f - <scale> <df> <x>                    ↦ x… | E:… | PANIC
@@ -90,7 +97,9 @@ def tableC15 : List (String × Rd String) := [
     let _ ← Wire.next; let mu ← rdVec; let cov ← rdMat; let mu2 ← rdVec
     match MvGaussian.new mu cov with
     | .error e => pure (wrErr "E0" e)
-    | .ok g => pure (wrEx (fun _ => "ok") (g.set_mu mu2))),
+    | .ok g =>
+      let (g', r) := g.set_mu_st mu2          -- the object AFTER the call is printed whether it failed or not
+      pure ((match r with | .ok _ => "ok" | .error e => wrErr "E" e) ++ " " ++ wrVec g'.mu ++ " " ++ wrMat g'.cov)),
   ("mvg.mean_variance", do
     let _ ← Wire.next; let mu ← rdVec; let cov ← rdMat
     match MvGaussian.new mu cov with
@@ -124,13 +133,35 @@ def tableC15 : List (String × Rd String) := [
       if x.length ≠ mu.length then pure "PANIC"
       else
         let before := g.ln_f x
-        match g.set_cov cov2 with
-        | .error e => pure (wrErr "E" e ++ " " ++ wrF (g.ln_f x) ++ " " ++ wrF g.entropy)
-        | .ok g2 =>
+        let (g2, r) := g.set_cov_st cov2      -- the object AFTER the call, whether it failed or not
+        match r with
+        | .error e =>
+          pure (String.intercalate " " [wrErr "E" e, wrF (g2.ln_f x), wrF g2.entropy, wrVec g2.mu, wrMat g2.cov, wrB (g2.eq g)])
+        | .ok _ =>
           match MvGaussian.new mu cov2 with
           | .error e => pure (wrErr "E2" e)
           | .ok fresh =>
-            pure (String.intercalate " " [wrF before, wrF (g2.ln_f x), wrF g2.entropy, wrF (fresh.ln_f x), wrF fresh.entropy])),
+            pure (String.intercalate " " [wrF before, wrF (g2.ln_f x), wrF g2.entropy, wrF (fresh.ln_f x), wrF fresh.entropy,
+              wrVec g2.mu, wrMat g2.cov, wrB (g2.eq fresh)])),
+  ("mvg.from_chol", do
+    let _ ← Wire.next; let mu ← rdVec; let cov ← rdMat; let x ← rdVec
+    if !(isSquare cov) then pure "PANIC"
+    else match cholesky cov with
+      | none => pure "N"
+      | some l =>
+        let b := MvGaussian.new_cholesky_unchecked mu l
+        match MvGaussian.new_cholesky mu l with
+        | .error e => pure (wrErr "E" e ++ " " ++ wrMat b.cov)
+        | .ok a =>
+          if x.length ≠ mu.length then pure "PANIC"
+          else match MvGaussian.new mu cov with
+            | .error e => pure (wrErr "E1" e)
+            | .ok c =>
+              match MvGaussian.from_params c.emit_params with
+              | .error e => pure (wrErr "E2" e)
+              | .ok r =>
+                pure (String.intercalate " " [wrMat a.cov, wrMat b.cov, wrB (b.eq a), wrF (b.ln_f x), wrF b.entropy,
+                  wrMat (b.variance.getD []), wrMat r.cov, wrB (r.eq c)])),
   ("mvgstat.observe_forget", do
     let _ ← Wire.next; let (_, d, data) ← rdMatDims; let idx ← rdL rdN
     let st := (MvGaussianSuffStat.new d : MvGaussianSuffStat Float).observe_many data
@@ -187,6 +218,14 @@ def tableC15 : List (String × Rd String) := [
     | .ok _, none => pure "PANIC"
     | .ok niw, some x =>
       if !(dataDimsOk mu.length x) || y.length ≠ mu.length then pure "PANIC" else pure (wrEx wrF (niw.ln_pp y x))),
+  ("niw.draw_z", do
+    let _ ← Wire.next; let (r, mu, _) ← rdNiw; let zs ← rdMat
+    match r with
+    | .error e => pure (wrErr "E" e)
+    | .ok niw =>
+      if zs.length ≠ niw.df + 1 || zs.any (fun z => z.length ≠ mu.length) then pure "BAD:variates"
+      else pure (wrEx (fun (g : MvGaussian Float) => wrVec g.mu ++ " " ++ wrMat g.cov)
+        (niw.draw_z (zs.take niw.df) (zs.getD niw.df [])))),
   -- the linear-algebra layer of the model against the nalgebra routines rv delegates to
   ("mat.det", do
     let _ ← Wire.next; let m ← rdMat
